@@ -456,7 +456,7 @@ def cmd_setup():
         if cfg.get('run_fn') == 'run_c10':
             need.add(('fuzz', 'fuzz'))
     for fl, b in sorted(need):
-        if not build(fl, b):
+        if not build(fl, b) and not build(fl, b):  # one retry: a concurrent check may have been writing the same cache entry
             ok = False
     print('setup ' + ('OK' if ok else 'FAILED'))
     return 0 if ok else 2
